@@ -9,6 +9,9 @@ use ckc_rs::{CKCNumber, PokerCard};
 /// all 2^32 words
 #[cfg_attr(kani, kani::proof)]
 pub fn c14_word_to_bit() {
+    let w0 = sym::u32();
+    // priming call on an unrelated arbitrary input: a memo / cache in front of a pure function would show here
+    let _ = <BinaryCard as BC64>::from_ckc(w0);
     let w = sym::u32();
     let b = <BinaryCard as BC64>::from_ckc(w);
     check!(b == set_bit_of_word(w), "from_ckc: card -> its deck-order bit, anything else -> empty");
@@ -17,11 +20,15 @@ pub fn c14_word_to_bit() {
     }
     cover!(is_card(w), "a card");
     cover!(!is_card(w) && w != 0, "a non-card word");
+    cover!(is_card(w0) && !is_card(w) && (w0 >> 8) & 0xFF == (w >> 8) & 0xFF, "a damaged copy of the card converted just before");
 }
 
 /// all 2^64 bit-set values
 #[cfg_attr(kani, kani::proof)]
 pub fn c14_bit_to_word() {
+    let b0 = sym::u64();
+    // priming call on an unrelated arbitrary input: a memo / cache in front of a pure function would show here
+    let _ = <CKCNumber as PokerCard>::from_binary_card(b0);
     let b = sym::u64();
     let w = <CKCNumber as PokerCard>::from_binary_card(b);
     let single = b != 0 && (b & (b - 1)) == 0;
